@@ -315,6 +315,54 @@ theorem data_samp_spec (s : TState) (hc : Coherent s) (j : Nat) (id : Id)
     rw [← hc.samp.1]; exact hj
   simp [dataAcc, this, hlt, bind, Except.bind, pure, Except.pure]
 
+/-! ### the summaries read the same matrix -/
+
+/-- `sum('whole')` is the total of the per-observation sums … -/
+theorem sum_whole_eq_obs (s : TState) : sumWhole s = sumRow (sumObs s) := rfl
+
+/-- … and of the per-sample sums (exchange of summation on the rectangular grid). -/
+theorem sum_whole_eq_samp (s : TState) (hc : Coherent s) : sumRow (sumSamp s) = sumWhole s := by
+  unfold sumSamp sumWhole
+  exact sum_cols_eq_sum_rows s.rows s.ncols hc.ncols
+
+theorem foldl_add_nat (l : List Nat) (a : Nat) : l.foldl (· + ·) a = a + l.foldl (· + ·) 0 := by
+  induction l generalizing a with
+  | nil => simp
+  | cons x xs ih => simp only [List.foldl_cons]; rw [ih (a + x), ih (0 + x)]; omega
+
+theorem nonzero_row_length (o : Id) (ids : List Id) (r : List Rat) (h : r.length = ids.length) :
+    ((ids.zip r).filterMap (fun (p : Id × Rat) => if p.2 != 0 then some (o, p.1) else none)).length =
+      (r.filter (· != 0)).length := by
+  induction ids generalizing r with
+  | nil => cases r <;> simp_all
+  | cons i is ih =>
+    cases r with
+    | nil => simp at h
+    | cons v vs =>
+      simp only [List.zip_cons_cons, List.filterMap_cons, List.filter_cons]
+      have := ih vs (by simpa using h)
+      by_cases hv : (v != 0) = true
+      · simp [hv]; simpa using this
+      · simp [hv]; simpa using this
+
+/-- `nnz` counts exactly the cells `nonzero()` lists. -/
+theorem nnz_eq_nonzero_length (s : TState) (hc : Coherent s) : nnzAcc s = (nonzeroAcc s).length := by
+  unfold nnzAcc nonzeroAcc
+  have hlen : s.rows.length = s.obs.ids.length := hc.nrows.trans hc.obs.1.symm
+  have hcols : ∀ r ∈ s.rows, r.length = s.samp.ids.length := fun r hr => (hc.ncols r hr).trans hc.samp.1.symm
+  generalize s.obs.ids = oids at hlen
+  generalize s.rows = rows at hlen hcols
+  induction rows generalizing oids with
+  | nil => cases oids <;> simp_all
+  | cons r rest ih =>
+    cases oids with
+    | nil => simp at hlen
+    | cons o os =>
+      simp only [List.map_cons, List.foldl_cons, List.zip_cons_cons, List.flatMap_cons, List.length_append]
+      rw [foldl_add_nat, Nat.zero_add]
+      rw [ih os (by simpa using hlen) (fun r' hr' => hcols r' (List.mem_cons_of_mem _ hr'))]
+      rw [nonzero_row_length o s.samp.ids r (hcols r (List.mem_cons_self ..))]
+
 /-! Non-vacuity: the hypotheses are met by a concrete table and history, and the history really
 changes IDs, lookups and metadata. -/
 def demoArgs : CtorArgs :=
